@@ -324,7 +324,7 @@ def check(ctx):
         sf = prog.func('schedule.ResourceUsageReport.reserved')
         ex = Expander(prog, sf, ctx.typer)
         rets = [n for n in walk_no_nested(sf.node) if isinstance(n, ast.Return)]
-        loops = [c_ for c_ in facts.collects(sf) if getattr(c_, 'kind', '') == 'loop' and isinstance(c_.target, ast.Name)]
+        loops = [c_ for c_ in _collects(sf) if getattr(c_, 'kind', '') == 'loop' and isinstance(c_.target, ast.Name)]
         for r in rets:
             from .sched_fill import fold_const
             v = fold_const(ex.expand(r.value))
@@ -335,13 +335,20 @@ def check(ctx):
                 # running total: `total = 0; for row in rows: if ..: total += row.units; return total`
                 flr = flow_of(sf)
                 accl = [c_ for c_ in loops if c_.acc == r.value.id]
-                inits = [d for d in flr.defs_of(r.value.id) if d.kind == 'assign']
-                augs = [d for d in flr.defs_of(r.value.id) if d.kind == 'aug']
+                inits = [d for d in flr.defs_of(r.value.id) if d.kind == 'assign' and facts.const_num(d.value) is not None]
+                augs = [d for d in flr.defs_of(r.value.id) if d not in inits]
                 if len(accl) == 1 and len(augs) == 1 and len(inits) == 1 and facts.const_num(inits[0].value) == 0:
                     c_ = accl[0]
                     parts = (c_.elt, c_.target, c_.iter, [])
                     for t_, pol_ in c_.conds:
                         atoms += facts.split_conj(t_, pol_)
+            if not parts and isinstance(v, ast.Constant):
+                pc_ = facts.node_conditions(prog, sf, r, ctx.typer)
+                if pc_ and not any(isinstance(x, ast.Attribute) and x.attr == '_ResourceUsageReport__rows' for t_, _ in pc_ for x in ast.walk(t_)):
+                    o.refute(sf, r, r, f"the report total is answered with `{src(v)}` without looking at the rows when " +
+                             ', '.join(facts.cond_texts(pc_))[:100] + ": rows booked for that resource and day are not counted, so the per-day totals "
+                             "disagree with the rows")
+                    continue
             if not parts:
                 o.undecided(sf, r, r, "reserved() is not sum(<comprehension>)")
                 continue
@@ -600,6 +607,37 @@ def ledger_shape(ctx, o):
     qp = qf.params
     sites = [c for c in _collects(qf) if match("$s.rows", sched.whole_seq(c.iter) if hasattr(sched, 'whole_seq') else c.iter)
              and isinstance(c.target, ast.Name)]
+    def _state_keys(fn_, day_param):
+        """{attr: {'raw' | 'key'}}: how the day enters the index of ledger state other than the rows"""
+        out = {}
+        exk = Expander(prog, fn_, ctx.typer)
+        for n_ in walk_no_nested(fn_.node):
+            base = idx_ = None
+            if isinstance(n_, ast.Subscript):
+                base, idx_ = n_.value, n_.slice
+            elif isinstance(n_, ast.Call) and isinstance(n_.func, ast.Attribute) and n_.func.attr in ('get', 'pop', 'setdefault') and n_.args:
+                base, idx_ = n_.func.value, n_.args[0]
+            elif isinstance(n_, ast.Compare) and len(n_.ops) == 1 and isinstance(n_.ops[0], (ast.In, ast.NotIn)):
+                base, idx_ = n_.comparators[0], n_.left
+            if not (isinstance(base, ast.Attribute) and isinstance(base.value, ast.Name) and base.value.id == fn_.params[0] and base.attr != 'rows'):
+                continue
+            cn_ = cfg_of(fn_).node_containing(n_)
+            ix = exk.expand(idx_, cn_) if cn_ is not None else idx_
+            for el in (ix.elts if isinstance(ix, ast.Tuple) else [ix]):
+                md = facts.is_midnight_of(el)
+                if md is not None and src(md) == day_param:
+                    out.setdefault(base.attr, set()).add('key')
+                elif isinstance(el, ast.Name) and el.id == day_param:
+                    out.setdefault(base.attr, set()).add('raw')
+        return out
+    if len(qp) > 2 and len(rf.params) > 2:
+        kq, kr = _state_keys(qf, qp[2]), _state_keys(rf, rf.params[2])
+        for attr_ in sorted(set(kq) & set(kr)):
+            if ('raw' in kq[attr_]) != ('raw' in kr[attr_]) or ('key' in kq[attr_]) != ('key' in kr[attr_]):
+                o.refute(qf, qf.node, f"self.{unmangle(attr_)}", f"the ledger keeps `{unmangle(attr_)}` next to the rows, indexed by the raw date in one of reserve() / reserved() and by "
+                                                                  f"the midnight key in the other: an entry stored for a time-of-day timestamp is never invalidated by later "
+                                                                  f"bookings of that day, so the day's total goes stale")
+                return
     # a scan that can stop before the last row does not sum all bookings of the day: rows are in booking order, not in date order
     early = False
     row_loops = [n for n in walk_no_nested(qf.node) if isinstance(n, ast.For) and
